@@ -46,9 +46,16 @@ def random_droplet(rng: random.Random, lay: dict, radius0: bool = True) -> dict:
 
 
 def random_time_list(rng: random.Random, n: int) -> list:
-    style = rng.choice(["range", "int", "float", "neg", "irregular", "np"])
+    style = rng.choice(["range", "int", "float", "neg", "irregular", "np", "decimal", "bigint"])
     if style == "range":
         return list(range(n))
+    if style == "decimal":  # not representable in binary, nor in single precision
+        t0 = rng.choice([0.1, -3.3, 1 / 3, 1e-3, 123456.789])
+        step = rng.choice([0.1, 0.7, 1e-3, 1 / 7])
+        return [t0 + i * step for i in range(n)]
+    if style == "bigint":  # beyond single precision, below 2**53
+        t0 = rng.choice([2 ** 24 + 1, 2 ** 31 + 7, 2 ** 52 + 1, 10 ** 9 + 7])
+        return [t0 + 2 * i for i in range(n)]
     t = {"int": rng.randint(0, 50), "float": q(rng.uniform(0, 10)),
          "neg": -q(rng.uniform(1, 100)), "irregular": q(rng.uniform(-5, 5)),
          "np": rng.randint(0, 5)}[style]
